@@ -19,10 +19,10 @@ fn main() {
         ctx.run_slice(Slice::new(format!("assoc[{}]", spec2.name()), u2.len() as u64, |i, loc| check_assoc_from::<B>(&u2, &idx2, i as usize, loc)).heavy());
     }
     // identity laws
-    let specid = if quick { Spec::open(3, 2, 2, 2, 2, 1, 1) } else { Spec::open(3, 2, 2, 2, 2, 2, 2) };
-    let uid = specid.universe();
-    let cap = if quick { 1_500_000 } else { 60_000_000 };
-    ctx.run_slice(Slice::new(format!("identity[{} first {}]", specid.name(), cap.min(uid.count())), uid.count().min(cap), |i, loc| check_identity::<B>(&uid.get_open(i), loc)));
+    for specid in Spec::family_3x2(if quick { 1 } else { 2 }, 0, !quick) {
+        let uid = specid.universe();
+        ctx.run_slice(Slice::new(format!("identity[{}]", specid.name()), uid.count(), |i, loc| check_identity::<B>(&uid.get_open(i), loc)));
+    }
     // interchange: all pairs of composable pairs of a small universe
     let speci = if quick { Spec::open(1, 1, 1, 1, 1, 1, 1) } else { Spec::open(2, 1, 1, 1, 1, 1, 1) };
     let ui = speci.universe().all_open();
@@ -57,6 +57,19 @@ fn main() {
         }
         check_assoc_triple::<B>(f, &p, &g2, loc);
     }).heavy());
+    // the laws on large operands (sizes 33 .. 129): identities, naturality of the symmetry on all pairs, and
+    // associativity on all composable triples of one numbering per shape
+    let sizes: Vec<usize> = if quick { vec![33, 65] } else { vec![33, 64, 65, 129] };
+    let big: Vec<_> = ohmc::props::structured::shapes_at(&sizes, false).into_iter().map(|x| x.1).collect();
+    ctx.run_slice(Slice::new(format!("identity-large[sizes {:?}: {} diagrams]", sizes, big.len()), big.len() as u64, |i, loc| check_identity::<B>(&big[i as usize], loc)));
+    let bigp: Vec<_> = big.iter().step_by(3).cloned().collect();
+    let nbp = bigp.len() as u64;
+    ctx.run_slice(Slice::new(format!("twist-natural-large[{}^2]", nbp), nbp * nbp, |i, loc| check_twist_natural::<B>(&bigp[(i / nbp) as usize], &bigp[(i % nbp) as usize], loc)));
+    let bigt: Vec<_> = big.iter().step_by(5).filter(|f| f.s.len() == 1 && f.t.len() == 1).cloned().collect();
+    let nbt = bigt.len() as u64;
+    ctx.run_slice(Slice::new(format!("assoc-large[{}^3 triples of 1 -> 1 diagrams]", nbt), nbt * nbt * nbt, |i, loc| {
+        check_assoc_triple::<B>(&bigt[(i / (nbt * nbt)) as usize], &bigt[((i / nbt) % nbt) as usize], &bigt[(i % nbt) as usize], loc)
+    }));
     // the laws in the lax representation: composites carry the pending unifications recorded by compose into
     // further operations (no quotient in between); all triples of the universe
     let lspec = if quick { Spec::lax(2, 1, 1, 1, 1, 1, 1, 0) } else { Spec::lax(2, 1, 1, 1, 1, 1, 1, 1) };
